@@ -544,6 +544,15 @@ def alloc_sizes(f):
 
 PURE_LIBC = {"strlen", "memcmp", "strcmp", "strncmp", "strcasecmp", "strncasecmp", "strchr", "strrchr", "strstr", "strcspn", "strspn", "memchr",
              "__errno_location", "__builtin_expect", "__builtin_constant_p"}
+# libc functions that do something besides answering: store through a pointer argument, allocate or release, perform I/O, change
+# process state.  (A closed list: a callee that is neither here, nor pure, nor defined in the analysed units is left alone.)
+EFFECT_LIBC = {"strftime", "memcpy", "memmove", "memset", "strcpy", "strncpy", "strcat", "strncat", "sprintf", "snprintf", "vsnprintf", "vsprintf", "sscanf",
+               "read", "write", "recv", "send", "sendto", "recvfrom", "close", "open", "fopen", "fclose", "fread", "fwrite", "fgets", "fputs", "fprintf", "printf",
+               "fflush", "fseek", "free", "malloc", "calloc", "realloc", "posix_memalign", "gmtime_r", "localtime_r", "setsockopt", "getsockopt", "fcntl",
+               "poll", "select", "clock_gettime", "gettimeofday", "connect", "accept", "bind", "listen", "socket", "shutdown", "getaddrinfo", "freeaddrinfo",
+               "inet_ntop", "inet_pton", "tcsetattr", "tcgetattr", "signal", "sigaction", "atexit", "setvbuf", "unlink", "rename", "fsync", "ftruncate",
+               "strtol", "strtoul", "strtoll", "strtoull", "strtoimax", "strtoumax", "strtod", "getline", "qsort", "srandom", "random", "rand", "srand",
+               "setuid", "setgid", "setgroups", "chdir", "kill", "fork", "waitpid", "pipe", "dup", "dup2", "insecure_memzero", "explicit_bzero"}
 _impure_memo = {}
 
 
@@ -566,6 +575,9 @@ def has_effects(prog, g, depth=0):
             if not (t[0] == "v" and len(t) > 2 and t[2] in locs):
                 res = True
                 break
+        if e.cls == "CallExpr" and e.callee in EFFECT_LIBC:
+            res = True
+            break
         if e.cls == "CallExpr" and e.callee and e.callee not in PURE_LIBC and e.callee != "__assert_fail":
             h = prog.resolve(g, e.callee)
             # a callee outside the analysed units is not held against the caller (the rule reports what it can show)
@@ -593,6 +605,8 @@ def assert_effects(prog, f):
                 continue
             if e.is_assign or e.is_incdec:
                 out.append((b.cond, "an assignment (`%s`)" % e.text[:30]))
+            elif e.cls == "CallExpr" and e.callee in EFFECT_LIBC:
+                out.append((b.cond, "a call of %s(), which has effects" % e.callee))
             elif e.cls == "CallExpr" and e.callee and e.callee not in PURE_LIBC:
                 h = prog.resolve(f, e.callee)
                 if h is not None and has_effects(prog, h):
